@@ -137,6 +137,44 @@ PROPS = {
     ),
 }
 
+PROPS["C20"] = dict(
+    coq=["Props.C20_cursor", "Props.C20_models", "Props.C15:C20_huffman", "Props.C03_float:C20_float",
+         "Props.C10_ans:C10_ans_decode_fits", "Props.C13:C13_decode_no_overflow,C13_encode_no_overflow",
+         "Props.C03_leaky:C03_leaky_step_guard,C10_leaky"],
+    fams=[("fam_ans", "gen_free", 150, 5000), ("fam_ans", "gen_stack", 100, 5000),
+          ("fam_ansseek", "gen_seek", 100, 4000), ("fam_ansb", "gen_bounded", 60, 3000),
+          ("fam_backend", "gen_cursor", 150, 8000), ("fam_backend", "gen_adapter", 60, 3000),
+          ("fam_backend", "gen_bufmut", 6, 30),
+          ("fam_bits", "gen_free", 100, 4000), ("fam_bits", "gen_eg_garbage", 60, 3000),
+          ("fam_chain", "gen_free", 120, 5000), ("fam_chain", "gen_boundary", 60, 3000),
+          ("fam_huff", "gen_edge", 30, 1500), ("fam_huff", "gen_overflow", 6, 30),
+          ("fam_models", "gen_malformed", 150, 8000), ("fam_models", "gen_valid", 100, 5000),
+          ("fam_floatq", "gen_malformed", 80, 4000), ("fam_floatq", "gen_f9", 40, 2000),
+          ("fam_leaky", "gen_step", 50, 4000), ("fam_leaky", "gen_f13", 15, 1000), ("fam_leaky", "gen_new", 40, 3000)],
+    anchors=["src/lib.rs", "src/backends.rs", "src/stream/model/categorical/contiguous.rs",
+             "src/stream/model/categorical/non_contiguous.rs", "src/stream/model/categorical/lookup_contiguous.rs",
+             "src/stream/model/categorical/lookup_noncontiguous.rs", "src/stream/model/quantize.rs",
+             "src/stream/model/uniform.rs", "src/stream/queue.rs", "src/stream/chain.rs", "src/symbol/huffman.rs"],
+    rule="case of any family that reaches an unsafe site's precondition boundary: rejected/malformed constructor input, "
+         "garbage stream, boundary position, or a listed known class",
+    level_text="PARTIAL by nature. What is proved: in the Gallina models every `get_unchecked`, `into_nonzero_unchecked`, "
+               "`unreachable_unchecked` site and every plain (non-wrapping) arithmetic operation is a CHECKED operation "
+               "with a distinct UB_*/overflow result, and theorems show these results unreachable from the safe API: "
+               "cursor index sites and usize subtractions (C20_cursor_*), table / lookup / uniform model sites "
+               "(C20_models_*), Huffman array sites (C20_huffman_*), non-zero probabilities of the float constructors "
+               "(C20_float_nonzero), no overflow in ANS and chain coder steps, the leaky search's step guard. "
+               "What is run: every family's cases in a DEBUG build (overflow checks, debug assertions, std's "
+               "unsafe-precondition checks) in a child process; a process abort, an arithmetic panic or a hang anywhere "
+               "is a violation.",
+    level_note="The model cannot exhibit compiled-code behaviour (aliasing, uninitialised memory, what LLVM does after UB); "
+               "everything that is not an index / non-zero / unreachable / overflow obligation is outside. AddressSanitizer "
+               "/ Miri are not part of the check. Known classes (printed as KNOWN-FINDING, see known_findings.txt): "
+               "cursor_buf_mut_shrink (witness theorem C20_cursor_buf_mut_refuted), huffman_weight_sum_overflow. "
+               "RANGE CODER SITES PENDING. Flocq-based theorems use the four allow-listed standard-library axioms.",
+    technique="Coq proof of the preconditions of every unsafe site in the models + debug-build correspondence runs",
+    design_ref="DESIGN.md section 4, C20",
+)
+
 _PENDING = "not claimed yet: the model/theorems for this property are still being built (see DESIGN.md staging)"
 NOT_APPLICABLE = {("C%02d" % i): _PENDING for i in range(1, 21)}
 
